@@ -47,7 +47,7 @@ if [ $rc -ge 2 ]; then
   # A crash is attributed to go-mc only when, in the stack of the goroutine that crashed (the first one the runtime
   # prints), the innermost frame that belongs to either the harness or go-mc is a go-mc frame. A harness bug
   # (innermost such frame in main./verif/ or the injected shim) is exit 2, never a verdict.
-  crashblock=$(awk '/^(panic:|fatal error:)/{f=1} f&&/^goroutine [0-9]+ \[/{g++} g==1{print} g>1{exit}' "$work/stderr.log")
+  crashblock=$(awk '/^(panic:|fatal error:)/{f=1} f&&/^goroutine [0-9]+ [^\n]*\[/{g++} g==1{print} g>1{exit}' "$work/stderr.log")
   culprit=$(echo "$crashblock" | grep -m1 -E '^(main\.|verif/|github\.com/Tnze/go-mc/)')
   if ! grep -q -e 'HARNESS-ERROR' -e 'choice tape divergence' "$work/stderr.log" && \
      grep -q -e '^fatal error:' -e '^panic:' -e 'goroutine stack exceeds' "$work/stderr.log" && \
